@@ -246,6 +246,28 @@ def vf_havoc(eng, st, fr, ins, a):
     return hv[k]
 
 
+@model("vf_watch")
+def vf_watch(eng, st, fr, ins, a):
+    if eng.lockmon is not None:
+        eng.lockmon.watch(eng, st, a[0], a[1], a[2], _name(eng, st, a[3]))
+    return None
+
+
+@model("vf_thread")
+def vf_thread(eng, st, fr, ins, a):
+    if eng.lockmon is not None:
+        eng.lockmon.set_role(eng, st, a[0], _name(eng, st, a[1]))
+    return None
+
+
+@model("vf_watch_end")
+def vf_watch_end(eng, st, fr, ins, a):
+    if eng.lockmon is not None:
+        eng.lockmon.finish(eng, st)
+        st.user["role"] = 0
+    return None
+
+
 @model("vf_symbolic")
 def vf_symbolic(eng, st, fr, ins, a):
     return 0 if eng.assignment is not None else 1
